@@ -80,6 +80,46 @@ def gen_install_data(rng, srcroot='/S', bld='/B', prefix=None, safe=False, lo=0)
     return hdr, es
 
 
+SYS_OPTS = [('werror', 'b'), ('strip', 'b'), ('debug', 'b'), ('b_lto', 'b'), ('backend_max_links', 'i'), ('b_lto_threads', 'i'),
+            ('licensedir', 's'), ('optimization', 's'), ('force_fallback_for', 'a'), ('c_args', 'a')]
+OPT_VALS = {'b': ['b:true', 'b:false'], 'i': ['i:0', 'i:3', 'i:7'], 's': ['s:', 's:x', 's:a b'], 'a': ['a:', 'a:x', 'a:x,y']}
+
+
+def gen_store_cases(rng, with_yield):
+    """An option store (system options, project options of the top project and of subprojects, yielding ones,
+    per-subproject overrides incl. falsy values against truthy ones and the reverse) and, for EVERY (sub)project and EVERY
+    option name, what the listing reports and what get_option() returns."""
+    sps = ['', 'sp0', 'sp1'][:rng.randint(1, 3)]
+    opts, augs, names = [], [], []
+    for n, k in rng.sample(SYS_OPTS, rng.randint(2, len(SYS_OPTS))):
+        opts.append(S1.join([n, 'N', rng.choice(OPT_VALS[k]), 'N']))
+        names.append(n)
+        for sp in sps[1:]:
+            if rng.random() < 0.5:
+                augs.append(S1.join([n, 'S' + sp, rng.choice(OPT_VALS[k])]))
+    top = {}
+    for j in range(rng.randint(0, 4)):
+        k = rng.choice('bisa')
+        n = 'o_%s%d' % (k, j)
+        for sp in sps:
+            if rng.random() < 0.6:
+                parent = 'N'
+                if sp and with_yield and top.get(n) == k and rng.random() < 0.5:
+                    parent = 'S' + n + S4 + 'S'
+                opts.append(S1.join([n, 'S' + sp, rng.choice(OPT_VALS[k]), parent]))
+                if not sp:
+                    top[n] = k
+        names.append(n)
+    names.append('nosuch')
+    o, a = enlist(S2, opts), enlist(S2, augs)
+    out = []
+    for sp in sps:
+        for n in names:
+            out.append(('reported', [o, a, sp, n]))
+            out.append(('getopt', [o, a, sp, n]))
+    return out
+
+
 def inprocess_cases(rng, thorough, scratch):
     cases = []
     # corpus (corner cases first)
@@ -198,6 +238,10 @@ def inprocess_cases(rng, thorough, scratch):
         ops = [S1.join([rng.choice('sap'), rng.choice(names), rng.choice([':', ';', '', '::']),
                         enlist(S3, [rng.choice(['v1', 'v2', '', 'x y']) for _ in range(rng.randint(0, 3))])]) for _ in range(rng.randint(0, 5))]
         cases.append((rng.choice(['getenv', 'mtestenv']), [base, ''] + ops))
+    # option stores: intro-buildoptions listing vs get_option(), every option x every (sub)project
+    with_yield = os.environ.get('C15_YIELD_OPTIONS', '1') == '1'   # on by default since fix 8eee044
+    for _ in range(400 if thorough else 60):
+        cases += gen_store_cases(rng, with_yield)
     suites = ['p', 'p:s1', 'p:s2', 'sp:s1', 'sp', 'p:a:b', ':x', 'q:']
     sels = ['p', 's1', ':s1', 'p:s1', 'sp:s2', 'sp', 'a:b', 'p:a:b', ':', '', 'q', 'q:']
     for _ in range(1500 if thorough else 400):
@@ -207,7 +251,7 @@ def inprocess_cases(rng, thorough, scratch):
 
 # ---------------------------------------------------------------------------- CLI projects
 def cli_plan(rng, thorough):
-    n = int(os.environ.get('C15_PROJECTS', '0')) or (600 if thorough else 36)
+    n = int(os.environ.get('C15_PROJECTS', '0')) or (400 if thorough else 36)
     plan = []
     for i in range(n):
         use_c = rng.random() < 0.4
@@ -232,9 +276,11 @@ def run_cli_project(item):
     import random
     rng = random.Random(seed)
     g = C.gen_project(rng, i, use_c, dup=dup, big=big)
+    g.do_configure = (i % 2 == 0)
     d = os.path.join(root, 'p%d' % i)
     os.makedirs(d, exist_ok=True)
-    out = {'i': i, 'seed': seed, 'use_c': use_c, 'dup': dup, 'setup_args': g.setup_args, 'dup_dests': g.dup_dests}
+    out = {'i': i, 'seed': seed, 'use_c': use_c, 'dup': dup, 'setup_args': g.setup_args, 'dup_dests': g.dup_dests,
+           'configure_args': g.configure_args if g.do_configure else []}
     try:
         res = C.setup(g, d)
         out['rc'] = res['rc']
@@ -278,6 +324,7 @@ def replay(ctx):
         g = C.Gen(random.Random(r.get('seed', 0)), r.get('i', 0), r.get('use_c', False))
         g.files, g.setup_args, g.exec_files = r['files'], r['setup_args'], {f for f in r['files'] if f.endswith('.py')}
         g.name = 'p%d' % r.get('i', 0)
+        g.configure_args, g.do_configure = r.get('configure_args', []), bool(r.get('configure_args'))
         reserved = baseline(root, r.get('use_c', False))
         d = os.path.join(root, 'replay')
         os.makedirs(d)
@@ -324,6 +371,20 @@ def run(ctx):
         if ri != rm and len(ctx.disagreements) < 200:
             ctx.disagreements.append({'case': [fn, [anonymise(a, scratch) for a in args]], 'implementation': anonymise(ri, scratch),
                                       'model': anonymise(rm, scratch), 'raw_case': [fn, args]})
+    # oracle clause, no model involved: for one and the same option store, what _list_buildoptions reports for (sp, n)
+    # is what OptionStore.get_value_for returns for OptionKey(n, sp)
+    pairs = {}
+    for (fn, args), ri in zip(cases, impl):
+        if fn in ('reported', 'getopt'):
+            pairs.setdefault(tuple(args), {})[fn] = ri
+    nopt = 0
+    for args, d in pairs.items():
+        nopt += 1
+        if d.get('getopt', 'N') != 'N' and d.get('reported') != d['getopt']:
+            ctx.violation('C15:options:listing-vs-get_option:%s:%s' % (args[2], args[3]),
+                          'for the same option store, get_option(%r) in (sub)project %r returns %r but _list_buildoptions reports %r'
+                          % (args[3], args[2], d['getopt'], d.get('reported')), {'case': ['reported', list(args)], 'and': ['getopt', list(args)]})
+    ctx.extra['option_store_queries'] = nopt
     ctx.extra['inprocess_cases'] = kinds
     ctx.extra['exhaustive'] = True
     ctx.extra['exhaustive_note'] = ('comps/basename on every string of length <= %d over {/,a,.}; destdir_join/join on every pair of them; '
@@ -355,6 +416,8 @@ def run(ctx):
             stats[k] += r['sizes'][k]
         stats['plan_entries'] += r['sizes']['plan']
         stats['options_observed'] += len(r['ob'].W['opts'])
+        stats['options_observed_after_configure'] = stats.get('options_observed_after_configure', 0) + sum(1 for n, _ in r['ob'].W['opts'] if n.startswith('cfg/'))
+        stats['subproject_overrides'] = stats.get('subproject_overrides', 0) + sum(1 for a in r['setup_args'] if a.startswith('-Dsp') and ':o_' not in a)
         stats['install_runs'] += len(r['ob'].W['runs'])
         stats['def_files'] += r['sizes']['files']
     if nfail_setup > len(results) // 4:
@@ -384,7 +447,7 @@ def run(ctx):
             what = 'intro files disagree with the generated build (%s) on generated project %d: %s' % (
                 clause, r['i'], anonymise(json.dumps(exp), scratch)[:1500])
             ctx.violation(ident, what, {'i': r['i'], 'seed': r['seed'], 'use_c': r['use_c'], 'setup_args': r['setup_args'],
-                                        'verdict_bits': bits, 'explain': json.loads(anonymise(json.dumps(exp), scratch)),
+                                        'configure_args': r['configure_args'], 'verdict_bits': bits, 'explain': json.loads(anonymise(json.dumps(exp), scratch)),
                                         'files': r['files']})
         # generator-side cross-check of the strace observation (harness sanity, not a verdict)
         w = set(r['ob'].W['files'])
